@@ -45,26 +45,28 @@ type loopInfo struct {
 	ord        int
 	spec       *LoopSpec
 	havocCells map[*ssa.Alloc]bool
-	havocHeap  map[string]string // name -> sort
+	havocPaths map[*ssa.Alloc]map[string]bool // for struct cells: the leaf paths that change ("" = whole cell)
+	havocHeap  map[string]string              // name -> sort
 	headState  *State
 	dec0       Term
 	body       map[*ssa.BasicBlock]bool
 }
 
 type frame struct {
-	fn      *ssa.Function
-	con     *Contract
-	name    string // obligation name prefix
-	out     map[*ssa.BasicBlock]*State
-	loops   map[*ssa.BasicBlock]*loopInfo
-	rets    []*State
-	retVals [][]Val
-	entry   *State
-	binds   map[string]Val // params (entry values), receiver
-	ords    map[ssa.Instruction]string
-	callIdx map[string]ssa.CallInstruction
-	inlined bool
-	depth   int
+	fn          *ssa.Function
+	con         *Contract
+	name        string // obligation name prefix
+	out         map[*ssa.BasicBlock]*State
+	loops       map[*ssa.BasicBlock]*loopInfo
+	rets        []*State
+	retVals     [][]Val
+	entry       *State
+	binds       map[string]Val // params (entry values), receiver
+	ords        map[ssa.Instruction]string
+	callIdx     map[string]ssa.CallInstruction
+	pseudoSites map[string]bool // map updates / lookups addressable like call sites
+	inlined     bool
+	depth       int
 }
 
 type FnExec struct {
@@ -93,6 +95,7 @@ type FnExec struct {
 	evalDepth     int
 	warns         []string
 	owned         map[Term]bool
+	boxed         map[Term]Val // interface value term -> the boxed pointer value (pointers to local cells)
 	cbInfo        map[*ssa.Function]*cbState
 	curInstr      ssa.Instruction
 }
@@ -328,6 +331,61 @@ func valKey(v Val) string {
 type cbState struct {
 	called Term // Bool: the closure was called at least once by the callee
 	last   Val  // result of its last call
+}
+
+// diffPaths lists the leaf paths at which two struct values differ ("" when they are not both structs of one shape).
+func diffPaths(a, b Val, pfx string) []string {
+	sa, ok1 := a.(StructV)
+	sb, ok2 := b.(StructV)
+	if !ok1 || !ok2 || len(sa.F) != len(sb.F) {
+		if valKey(a) != valKey(b) {
+			return []string{pfx}
+		}
+		return nil
+	}
+	var out []string
+	for i := range sa.F {
+		p := fmt.Sprintf("%s.%d", pfx, i)
+		if pfx == "" {
+			p = fmt.Sprintf("%d", i)
+		}
+		out = append(out, diffPaths(sa.F[i], sb.F[i], p)...)
+	}
+	return out
+}
+
+func (fe *FnExec) havocStructPaths(sv StructV, pfx string, paths map[string]bool, hint string) Val {
+	st, _ := sv.T.Underlying().(*types.Struct)
+	out := StructV{T: sv.T, F: append([]Val(nil), sv.F...)}
+	for i := range out.F {
+		p := fmt.Sprintf("%s.%d", pfx, i)
+		if pfx == "" {
+			p = fmt.Sprintf("%d", i)
+		}
+		if paths[p] {
+			var ft types.Type
+			if st != nil && i < st.NumFields() {
+				ft = st.Field(i).Type()
+			}
+			if ft != nil {
+				out.F[i] = fe.freshVal(ft, hint)
+			}
+			continue
+		}
+		if sub, ok := out.F[i].(StructV); ok {
+			// descend only if some deeper path is marked
+			deeper := false
+			for k := range paths {
+				if strings.HasPrefix(k, p+".") {
+					deeper = true
+				}
+			}
+			if deeper {
+				out.F[i] = fe.havocStructPaths(sub, p, paths, hint)
+			}
+		}
+	}
+	return out
 }
 
 // typedRef: objects of different struct types have different ids.
@@ -692,7 +750,7 @@ func (fe *FnExec) findLoops(fr *frame) {
 	}
 	sort.Slice(hs, func(i, j int) bool { return hs[i].Index < hs[j].Index })
 	for i, h := range hs {
-		li := &loopInfo{head: h, ord: i, havocCells: map[*ssa.Alloc]bool{}, havocHeap: map[string]string{}, body: map[*ssa.BasicBlock]bool{h: true}}
+		li := &loopInfo{head: h, ord: i, havocCells: map[*ssa.Alloc]bool{}, havocPaths: map[*ssa.Alloc]map[string]bool{}, havocHeap: map[string]string{}, body: map[*ssa.BasicBlock]bool{h: true}}
 		if fr.con != nil {
 			li.spec = fr.con.Loops[i]
 		}
@@ -757,6 +815,14 @@ func (fe *FnExec) assignOrdinals(fr *frame) {
 					fr.ords[in] = key
 				}
 				fr.callIdx[key] = x
+			case *ssa.MapUpdate:
+				fr.ords[in] = fmt.Sprintf("mapupdate#%d", next("mapupdate"))
+				fr.pseudoSites[fr.ords[in]] = true
+			case *ssa.Lookup:
+				if _, isMap := x.X.Type().Underlying().(*types.Map); isMap {
+					fr.ords[in] = fmt.Sprintf("maplookup#%d", next("maplookup"))
+					fr.pseudoSites[fr.ords[in]] = true
+				}
 			case *ssa.MakeSlice:
 				fr.ords[in] = fmt.Sprintf("alloc[%d]", next("alloc"))
 			case *ssa.Panic:
@@ -823,7 +889,7 @@ func calleeShortName(cc *ssa.CallCommon, in *ssa.Function) string {
 }
 
 func (fe *FnExec) newFrame(fn *ssa.Function, con *Contract, name string) *frame {
-	fr := &frame{fn: fn, con: con, name: name, out: map[*ssa.BasicBlock]*State{}, loops: map[*ssa.BasicBlock]*loopInfo{}, binds: map[string]Val{}, ords: map[ssa.Instruction]string{}, callIdx: map[string]ssa.CallInstruction{}}
+	fr := &frame{fn: fn, con: con, name: name, out: map[*ssa.BasicBlock]*State{}, loops: map[*ssa.BasicBlock]*loopInfo{}, binds: map[string]Val{}, ords: map[ssa.Instruction]string{}, callIdx: map[string]ssa.CallInstruction{}, pseudoSites: map[string]bool{}}
 	fe.findLoops(fr)
 	fe.assignOrdinals(fr)
 	return fr
@@ -1095,7 +1161,11 @@ func (fe *FnExec) enterLoop(fr *frame, li *loopInfo, st *State) {
 		return cs[i].Pos() < cs[j].Pos() || (cs[i].Pos() == cs[j].Pos() && cs[i].Name() < cs[j].Name())
 	})
 	for _, c := range cs {
-		if _, ok := st.cells[c]; ok {
+		if cur, ok := st.cells[c]; ok {
+			if sv, isS := cur.(StructV); isS && len(li.havocPaths[c]) > 0 && !li.havocPaths[c][""] {
+				st.cells[c] = fe.havocStructPaths(sv, "", li.havocPaths[c], "lp."+c.Comment)
+				continue
+			}
 			st.cells[c] = fe.freshVal(c.Type().(*types.Pointer).Elem(), "lp."+c.Comment)
 			if c.Comment == "rangeindex" {
 				// structural invariant of go/ssa's range lowering: the index starts at -1 and only increments
@@ -1144,9 +1214,20 @@ func (fe *FnExec) backEdge(fr *frame, li *loopInfo, st *State) {
 			if !ok {
 				continue
 			}
-			if valKey(hv) != valKey(v) && !li.havocCells[c] {
-				li.havocCells[c] = true
-				fe.changed = true
+			if valKey(hv) != valKey(v) {
+				if !li.havocCells[c] {
+					li.havocCells[c] = true
+					fe.changed = true
+				}
+				if li.havocPaths[c] == nil {
+					li.havocPaths[c] = map[string]bool{}
+				}
+				for _, pth := range diffPaths(hv, v, "") {
+					if !li.havocPaths[c][pth] {
+						li.havocPaths[c][pth] = true
+						fe.changed = true
+					}
+				}
 			}
 		}
 		for h, t := range st.heap {
